@@ -19,10 +19,9 @@ fn base(b: u8) -> bool {
     b != b'\r' && b != b'\n' && b != b'>'
 }
 
-// @verif prop=C12,C11 id=O12.4a tier=off off_reason="does not fit: >900 s / >14 GB with the real memchr SSE2 path under a symbolic window" unwind=12 timeout=900 stubs="std::arch::x86_64::__cpuid_count->no optional CPU features (memchr runs its real SSE2 path)" bound="sequence text b0 b1 CR LF b2 CR LF '>' (3 symbolic base bytes, CRLF line ends, next record follows) delivered through a BufRead that splits the text in two at ANY offset (one solver-placed partial fill_buf window of any size, then the rest): bases read == b0 b1 b2, no terminator byte ever emitted" fns="fasta::io::reader::sequence::Reader::fill_buf,consume_empty_lines,read_sequence_limit"
+// @verif prop=C12,C11 id=O12.4a tier=off off_reason="does not fit: >9 GB even with the memchr shim (Vec::extend with a symbolic-length slice inside read_sequence_limit); superseded by O12.4g/h which drain the same Reader through its Read impl into a fixed array" unwind=12 timeout=900 stubs="memchr::memchr->first-occurrence loop (cfg(kani) source shim, documented contract)" bound="sequence text b0 b1 CR LF b2 CR LF '>' (3 symbolic base bytes, CRLF line ends, next record follows) delivered through a BufRead that splits the text in two at ANY offset (one solver-placed partial fill_buf window of any size, then the rest): bases read == b0 b1 b2, no terminator byte ever emitted" fns="fasta::io::reader::sequence::Reader::fill_buf,consume_empty_lines,read_sequence_limit"
 #[kani::proof]
 #[kani::unwind(12)]
-#[kani::stub(std::arch::x86_64::__cpuid_count, fake_cpuid)]
 fn c12_fasta_sequence_reader_crlf_any_windows() {
     let b: [u8; 3] = kani::any();
     kani::assume(base(b[0]) && base(b[1]) && base(b[2]));
@@ -37,10 +36,9 @@ fn c12_fasta_sequence_reader_crlf_any_windows() {
     std::mem::forget(out);
 }
 
-// @verif prop=C12,C11 id=O12.4b tier=off off_reason="does not fit: >900 s / >14 GB with the real memchr SSE2 path under a symbolic window" unwind=12 timeout=900 stubs="std::arch::x86_64::__cpuid_count->no optional CPU features (memchr runs its real SSE2 path)" bound="sequence text b0 LF b1 b2 LF then EOF (LF line ends, short last line), split in two at any offset, limit 2 bases: exactly the first 2 bases" fns="Reader::fill_buf,consume_empty_lines,read_sequence_limit"
+// @verif prop=C12,C11 id=O12.4b tier=off off_reason="does not fit: >9 GB even with the memchr shim (Vec::extend with a symbolic-length slice inside read_sequence_limit); superseded by O12.4g/h which drain the same Reader through its Read impl into a fixed array" unwind=12 timeout=900 stubs="memchr::memchr->first-occurrence loop (cfg(kani) source shim, documented contract)" bound="sequence text b0 LF b1 b2 LF then EOF (LF line ends, short last line), split in two at any offset, limit 2 bases: exactly the first 2 bases" fns="Reader::fill_buf,consume_empty_lines,read_sequence_limit"
 #[kani::proof]
 #[kani::unwind(12)]
-#[kani::stub(std::arch::x86_64::__cpuid_count, fake_cpuid)]
 fn c12_fasta_sequence_reader_limit_any_windows() {
     let b: [u8; 3] = kani::any();
     kani::assume(base(b[0]) && base(b[1]) && base(b[2]));
@@ -51,6 +49,58 @@ fn c12_fasta_sequence_reader_limit_any_windows() {
     assert_eq!(n, 2);
     assert!(out.len() == 2 && out[0] == b[0] && out[1] == b[1]);
     std::mem::forget(out);
+}
+
+/// read_sequence()/read_sequence_limit() are `Reader::new(inner)` + a std copy loop into a Vec
+/// (read_to_end / Vec::extend with a symbolic length: does not fit, R12).  The noodles logic -- line
+/// terminator stripping, empty lines, stop at '>' -- is all in `Reader::{read, fill_buf, consume}`, which
+/// this drains with the same loop shape into a fixed array.
+fn drain<R: BufRead>(src: &mut R, out: &mut [u8; 8]) -> usize {
+    let mut r = Reader::new(src);
+    let mut total = 0;
+    let mut k = 0;
+    while k < 6 {
+        let n = r.read(&mut out[total..]).unwrap();
+        if n == 0 {
+            return total;
+        }
+        total += n;
+        k += 1;
+    }
+    usize::MAX // more than 6 non-empty reads: cannot happen with <= 2 windows and 2 lines
+}
+
+// @verif prop=C12,C11 id=O12.4g tier=quick unwind=10 stubs="memchr::memchr->first-occurrence loop (cfg(kani) source shim, documented contract)" bound="sequence text b0 b1 CR LF b2 CR LF '>' (3 symbolic base bytes, CRLF line ends, next record follows) delivered through a BufRead that splits the text in two at ANY offset (one solver-placed partial fill_buf window of any size, then the rest), drained through the sequence Reader's Read impl: bases read == b0 b1 b2, no terminator byte ever emitted, stops in front of '>'" fns="fasta::io::reader::sequence::Reader::read,Reader::fill_buf,Reader::consume,consume_empty_lines"
+#[kani::proof]
+#[kani::unwind(10)]
+fn c12_fasta_sequence_reader_read_crlf_any_windows() {
+    let b: [u8; 3] = kani::any();
+    kani::assume(base(b[0]) && base(b[1]) && base(b[2]));
+    let data = [b[0], b[1], b'\r', b'\n', b[2], b'\r', b'\n', b'>'];
+    let mut src = ChunkyBuf::new(&data).with_partial_budget(1);
+    let mut out = [0u8; 8];
+    let n = drain(&mut src, &mut out);
+    assert_eq!(n, 3);
+    assert!(out[0] == b[0] && out[1] == b[1] && out[2] == b[2]);
+    assert_eq!(src.pos, 7);
+}
+
+// @verif prop=C12,C11,C13 id=O12.4h tier=quick unwind=10 stubs="memchr::memchr->first-occurrence loop (cfg(kani) source shim, documented contract)" bound="sequence text b0 LF b1 b2 then EOF without a final line terminator / with a final CR LF (symbolic choice), split in two at any offset: exactly b0 b1 b2, then end of sequence" fns="Reader::read,Reader::fill_buf,Reader::consume,consume_empty_lines"
+#[kani::proof]
+#[kani::unwind(10)]
+fn c12_fasta_sequence_reader_read_last_line_any_windows() {
+    let b: [u8; 3] = kani::any();
+    kani::assume(base(b[0]) && base(b[1]) && base(b[2]));
+    let data = [b[0], b'\n', b[1], b[2], b'\r', b'\n'];
+    let tail: usize = kani::any();
+    // tail 0: "...b2" EOF; tail 2: "...b2 CR LF" EOF (a lone CR before EOF is malformed: not claimed)
+    kani::assume(tail == 0 || tail == 2);
+    let mut src = ChunkyBuf::new(&data[..4 + tail]).with_partial_budget(1);
+    let mut out = [0u8; 8];
+    let n = drain(&mut src, &mut out);
+    assert_eq!(n, 3);
+    assert!(out[0] == b[0] && out[1] == b[1] && out[2] == b[2]);
+    assert_eq!(src.pos, 4 + tail);
 }
 
 fn seq_case(k: usize) {
@@ -66,10 +116,9 @@ fn seq_case(k: usize) {
     std::mem::forget(out);
 }
 
-// @verif prop=C12,C11 id=O12.4f tier=off off_reason="does not fit: >600 s even with CONCRETE split points -- the real memchr SSE2 path over symbolic bytes is what explodes" unwind=20 timeout=600 stubs="std::arch::x86_64::__cpuid_count->no optional CPU features (memchr runs its real SSE2 path)" bound="sequence text b0 b1 CR LF b2 CR LF '>' (symbolic base bytes) delivered in two fill_buf windows split after byte 2, 3 (between CR and LF), 4, 6 (one run each; concrete split positions, R13): bases read == b0 b1 b2, no terminator byte emitted, stops before '>'" fns="fasta::io::reader::sequence::Reader::fill_buf,consume_empty_lines,read_sequence_limit"
+// @verif prop=C12,C11 id=O12.4f tier=off off_reason="does not fit: >9 GB even with the memchr shim (Vec::extend with a symbolic-length slice inside read_sequence_limit); superseded by O12.4g/h which drain the same Reader through its Read impl into a fixed array" unwind=20 timeout=600 stubs="memchr::memchr->first-occurrence loop (cfg(kani) source shim, documented contract)" bound="sequence text b0 b1 CR LF b2 CR LF '>' (symbolic base bytes) delivered in two fill_buf windows split after byte 2, 3 (between CR and LF), 4, 6 (one run each; concrete split positions, R13): bases read == b0 b1 b2, no terminator byte emitted, stops before '>'" fns="fasta::io::reader::sequence::Reader::fill_buf,consume_empty_lines,read_sequence_limit"
 #[kani::proof]
 #[kani::unwind(20)]
-#[kani::stub(std::arch::x86_64::__cpuid_count, fake_cpuid)]
 fn c12_fasta_sequence_reader_crlf_split_anywhere() {
     seq_case(2);
     seq_case(3);
